@@ -32,11 +32,50 @@ contract(f"{S}::mk_p_value",
              "significance": "result[1] == ite(ite(z >= 0, z, -z) > ndtri(1 - 0.05 / 2), 1, 0)"},
     props=("C10",), note="erf / ndtri / sqrt uninterpreted: the obligation is that the formula of the statement is evaluated with the right operands")
 
+# tie-corrected variance: (n(n-1)(2n+5) - sum over the distinct values of t(t-1)(2t+5)) / 18, t = multiplicity of the value
+specfn("tiesum", "xu:real[], x:real[], n:int, i:int", "int",
+       [("i <= 0", "0"), (None, "tiesum(xu, x, n, i - 1) + cnteq(x, xu[i - 1], n) * (cnteq(x, xu[i - 1], n) - 1) * (2 * cnteq(x, xu[i - 1], n) + 5)")],
+       doc="sum over the first i distinct values of t (t - 1) (2 t + 5)")
+TZ = "ghost:contracts/ghost_stats.py::tiesum_zero"
+contract(TZ, params={"xu": "real[U]", "x": "real[N]", "n": "int", "m": "int"},
+    requires={"len": "0 <= m and m <= U and n == N", "untied": "forall(i, 0, m, cnteq(x, xu[i], n) == 1)"},
+    ensures={"vanishes": "tiesum(xu, x, n, m) == 0"},
+    loops={0: {"var": "s", "invariant": {"range": "0 <= s", "eq": "tiesum(xu, x, n, s) == 0"}}},
+    options={"frame_obligations": False}, props=("C10",))
+
 contract(f"{S}::mk_variance_s", variant="default", params={"x": "real[N]"}, result="real", requires={"length": "N >= 2"},
-         ensures={"positive": "True"}, options={"auto_cut": True, "frame_obligations": False}, props=("C10",),
-         note="call-site contract only (tie-corrected variance is decided by the bounded stand-in)")
+    local_ensures={"tie_corrected_variance": "result == real(N * (N - 1) * (2 * N + 5) - tiesum(xu, x, N, xu.size)) / 18"},
+    loops={0: {"var": "i", "invariant": {"range": "0 <= i and n == N", "acc": "tp == tiesum(xu, x, n, i)"}},
+           1: {"var": "ii", "invariant": {"range": "0 <= ii and 0 <= i and i < xu.size and n == N", "cnt": "_tp == cnteq(x, xu[i], ii)"}}},
+    exit_hints=[("call", TZ, {"xu": "xu", "x": "x", "n": "N", "m": "ite(xu.size == N, xu.size, 0)", "U": "xu.size", "N": "N"})],
+    options={"nloops": 2, "frame_obligations": False, "unique_counts": True}, props=("C10", "C14"),
+    note="xu = np.unique(x) (library contract: distinct values; when len(xu) == N every value occurs once); the clause is stated over the local xu")
+
+# Sen's slope: every pairwise slope (x[j] - x[i]) / (j - i), i < j, sits in its own cell of d (row-major pair order) and the slope is the
+# (nan)median of exactly these cells; the intercept is median(x) - (n - 1)/2 * slope.  np.nanmedian is an uninterpreted order statistic.
+specfn("pairs_before", "i:int, n:int", "int", [("i <= 0", "0"), (None, "pairs_before(i - 1, n) + (n - i)")],
+       doc="number of pairs (a, b), a < b < n, with a < i")
+PBM = "ghost:contracts/ghost_stats.py::pb_mono"
+contract(PBM, params={"n": "int", "i": "int"},
+    requires={"range": "0 <= i and i <= n"},
+    ensures={"rows_disjoint": "forall(a, 0, i, pairs_before(a, n) + (n - a - 1) <= pairs_before(i, n)) and pairs_before(i, n) >= 0"},
+    loops={0: {"var": "s", "invariant": {"range": "0 <= s", "mono": "forall(a, 0, s, pairs_before(a, n) + (n - a - 1) <= pairs_before(s, n)) and pairs_before(s, n) >= 0"}}},
+    options={"frame_obligations": False}, props=("C10",))
 contract(f"{S}::mk_sens_slope", variant="default", params={"x": "real[N]"}, result=("real", "real"), requires={"length": "N >= 2"},
-         options={"auto_cut": True, "frame_obligations": False}, props=("C10",), note="call-site contract only (median of pairwise slopes: bounded stand-in; index safety in C14)")
+    local_ensures={
+        "all_pairwise_slopes": "forall((a, b), implies(0 <= a and a < b and b < N, d[pairs_before(a, N) + b - a - 1] == (x[b] - x[a]) / (b - a)))",
+        "cells_used": "ix == pairs_before(N - 1, N)",
+        "slope_is_median_of_slopes": "result[0] == nanmedian(d)",
+        "intercept": "result[1] == nanmedian(x) - (real(N) - 1) / 2 * result[0]",
+    },
+    loops={0: {"var": "i", "invariant": {"range": "0 <= i and n == N and ix == pairs_before(i, n) and ix >= 0",
+                                         "done": "forall((a, b), implies(0 <= a and a < i and a < b and b < N, d[pairs_before(a, N) + b - a - 1] == (x[b] - x[a]) / (b - a)))"}},
+           1: {"var": "j", "invariant": {"range": "0 <= i and i < n - 1 and i + 1 <= j and n == N and ix == pairs_before(i, n) + j - i - 1 and pairs_before(i, n) >= 0",
+                                         "done": "forall((a, b), implies(0 <= a and a < i and a < b and b < N, d[pairs_before(a, N) + b - a - 1] == (x[b] - x[a]) / (b - a)))",
+                                         "row": "forall(b, i + 1, j, d[pairs_before(i, N) + b - i - 1] == (x[b] - x[i]) / (b - i))"},
+               "head_hints": [("call", PBM, {"n": "N", "i": "i"})]}},
+    options={"nloops": 2, "frame_obligations": False, "div_obligations": False, "index_obligations": False}, props=("C10",),
+    note="index safety of d[ix] (ix < n(n-1)/2) is C14's obligation; here the cells are identified through the linear recursion pairs_before")
 
 contract(f"{S}::mann_kendall_trend_1d",
     params={"x": "real[N]"}, result=("real", "real", "real", "int"),
